@@ -710,6 +710,94 @@ def xff13_roundtrip_counts(h):
     _zone_names_roundtrip(h, _ZONE_COUNT_NAME_BYTES[:n])
 
 
+def _install_zone_names_loop(h, buf, mlen):
+    """Loop contract for the record loop of ZoneNamesDecoder.decode (`while offset < message_length`), for any
+    number of records of any lengths.  Spec (vendor page 14): the records tile the payload - record k starts at
+    pos(k), pos(0) = 0, pos(k+1) = pos(k) + 2 + payload[pos(k) + 1]; n = the first k with pos(k) >= length.
+    `pos` is an uninterpreted function; the facts used are its definition at the indices touched.  At an
+    arbitrary iteration k (cursor pos(k), mapping = the first k stores) the real body must perform exactly one
+    store - zone payload[pos(k)] -> text of the payload[pos(k)+1] bytes that follow - and move the cursor to
+    pos(k+1), or reject."""
+    import z3
+    from pyvc.loops import StateLoop, SpecDict
+    from pyvc.pybuiltins import SStrA
+    from pyvc.values import ABytes, BytesVal
+    from pyvc import sym as S
+    pos_f = z3.Function(S.fresh_name("pos"), z3.IntSort(), z3.IntSort())
+    n = S.SInt(z3.Int(S.fresh_name("n_records")))
+    pos = lambda k: S.SInt(pos_f(S.int_t(k)))  # noqa: E731
+    P = h.it.path
+
+    def n_of(it, iterable, entry, env):
+        return n
+
+    def define(it, k, entry):
+        if k == "init":
+            P.assume(And(n >= 0, pos(0) == 0), "spec: pos(0) = 0")
+        elif k is None:
+            # loop invariant at exit: 0 <= pos(n) <= length (established by init and by the preservation obligation
+            # "a record that would end beyond the announced length is rejected"), and n is the first index not inside
+            P.assume(And(pos(n) >= mlen, pos(n) <= mlen), "spec: n is the first record index whose start is not inside the payload; invariant pos(k) <= length")
+        else:
+            P.assume(And(pos(k) >= 0, pos(k) < mlen), "spec: records before n start inside the payload (n is the first that does not)")
+
+    def at(it, k, entry):
+        if not (entry["offset"] == 0 and entry["zone_names"] == {}):
+            raise Exception("loop entry state does not match the contract pattern")
+        return {"offset": pos(k), "zone_names": SpecDict("xFF13", k)}
+
+    def check(it, k, entry, after):
+        d, off = after["zone_names"], after["offset"]
+        ok = isinstance(d, SpecDict) and len(d.stores) == 1
+        h.oblige("xFF13-loop/exactly one store per record", ok, kind="loop-preserve")
+        ln = buf.at(pos(k) + 1)
+        h.oblige("xFF13-loop/the cursor moves to the next record: pos(k+1) = pos(k) + 2 + name length byte",
+                 S.eq(off, pos(k) + 2 + ln), kind="loop-preserve")
+        h.oblige("xFF13-loop/a record that would end beyond the announced length is rejected, not read", off <= mlen, kind="loop-preserve")
+        if not ok:
+            return
+        key, val = d.stores[0]
+        h.oblige("record k: zone index = first byte of the record", S.eq(key, buf.at(pos(k))))
+        if isinstance(val, SStrA) and isinstance(val.view, ABytes):
+            v = val.view
+            h.oblige("record k: name = exactly the announced number of bytes that follow the length byte (UTF-8)",
+                     And(v.same_base(buf), S.eq(v.off, buf.off + pos(k) + 2), S.eq(v.ln, ln)))
+        else:
+            data = val.data if hasattr(val, "data") else BytesVal.of(val.encode("utf-8")) if isinstance(val, str) else None
+            h.oblige("record k: name = exactly the announced number of bytes that follow the length byte (UTF-8)",
+                     data is not None and And(S.eq(ln, len(data.items)), *[S.eq(x, buf.at(pos(k) + 2 + i)) for i, x in enumerate(data.items)]))
+
+    h.it.loop_hooks[(XZN + ":ZoneNamesDecoder.decode", 0)] = StateLoop("xFF13-loop", ["offset", "zone_names"], n_of, at, check, define=define)
+    return n, pos
+
+
+@oset("at5.xFF13.decode-any-length", ["C05", "C17"], ZN_FNS[2:],
+      assumptions=["len(payload) == sub-header.message_length (what the receive path hands to a sub-decoder)",
+                   "the vendor document is silent about a zone index that occurs twice: the last name wins (accepted)",
+                   "spec function pos(k) (start of record k) is uninterpreted; its recursive definition is used at the indices touched"])
+def xff13_decode_any(h):
+    """Unbounded companion of decode-vendor-reading: any payload length, any number of records, any name lengths."""
+    if not h.symbolic:
+        return
+    buf, mlen = _payload(h, min_len=2)
+    n, pos = _install_zone_names_loop(h, buf, mlen)
+    r = h.method(h.new(XZN + ":ZoneNamesDecoder"), "decode", buf, at5_ext_subheader(h, ID_ZONE_NAMES, mlen))
+    h.oblige("returns or rejects", only_rejects(h, r))
+    if not r.ok:
+        h.oblige("rejects only with IndexError (record cut after the zone index), DecodeError (records do not tile the payload) "
+                 "or UnicodeDecodeError (name is not UTF-8)", r.raised("IndexError", "DecodeError", "UnicodeDecodeError"))
+        return
+    from pyvc.loops import SpecDict
+    m = h.attr(r.value, "message")
+    names = h.attr(m, "zone_names") if h.isinstance(m, XZN + ":ZoneNamesMessage") else None
+    h.oblige("two or more bytes of data decode to a names message", names is not None)
+    h.oblige("the decoded mapping is exactly the stores of the n records that tile the payload, nothing else",
+             isinstance(names, SpecDict) and len(names.stores) == 0 and h.eq(names.n, n) is not False and bool(h.it.path.branch(h.eq(names.n, n)) if isinstance(names, SpecDict) else False))
+    h.oblige("accepted only if the records end exactly at the announced length", h.eq(pos(n), mlen))
+    h.oblige("nothing left over", h.eq(h.length(h.attr(r.value, "remaining")), 0))
+    h.cover("names decoded")
+
+
 ZN_PAYLOAD_MAX = 8
 
 
